@@ -16,6 +16,10 @@ package hackpadfs
 //@ lemma replaceEmpty(a string, b string) := replaceAll("", a, b) == ""
 //@ lemma replaceInverse(x string, a string, b string) := implies(len(a) == 1 && len(b) == 1 && !contains(x, b), replaceAll(replaceAll(x, a, b), b, a) == x)
 //@ lemma replaceLen(x string, a string, b string) := implies(len(a) == 1 && len(b) == 1, len(replaceAll(x, a, b)) == len(x))
+//@ lemma dirValid(p string) := implies(VP(p), VP(pdir(p)) && VP(pbase(p)))
+//@ lemma dirJoin(p string) := implies(VP(p) && p != ".", pdir(p) != p && pbase(p) != "" && pbase(p) != "." && !contains(pbase(p), "/") &&
+//@                            implies(pdir(p) == ".", p == pbase(p)) && implies(pdir(p) != ".", p == pdir(p) + "/" + pbase(p)))
+//@ lemma dirRoot() := pdir(".") == "." && pbase(".") == "."
 //@ lemma vpDot(p string) := implies(VP(p) && hasPrefix(p, "."), p == "." || !hasPrefix(p, "./"))
 
 // ---- interfaces (assumed for foreign implementations; deterministic = results and the new
